@@ -13,6 +13,19 @@ PROOF_NOTE = ("Trusted: Lean 4.33 kernel + axioms propext/Classical.choice/Quot.
               "tables/constants (Strophe/Gen). ")
 
 CLAIMED = {
+    "C04": dict(
+        engine="conn", design="5.4",
+        technique="Lean 4: invariants over every operation history of the connection-machine model (numbering, contiguity, retained = written) and step theorems for <a/>, <resumed/>, <failed/>, <enabled/> with the ghost number of every written element; tied to event.c/conn.c/auth.c by differential execution + model-free SM monitor",
+        text=("retire_counts + only_user_stanzas_numbered (exactly the user's stanzas are numbered: no negotiation element, <r/>, <a/>, "
+              "stream error or header), contiguous_numbers / contiguous_while_resumable (retained numbers are consecutive and end "
+              "at sent-1 on every answered or resumable session), retained_were_written, retained_only_released_by_h (NOTHING IS "
+              "LOST from the retained queue except by an h the server sent or by being put back for retransmission, every reachable "
+              "state and operation), ack_releases_exactly (<a h> releases exactly the numbers below h), "
+              "resumed_retransmits_exactly (exactly the stanzas beyond h, once, in order, before CONNECT is delivered, counter "
+              "continues at h), failed_keeps_unhandled + enabled_resends_all, retained_are_user_items. Known finding D52 with "
+              "machine-checked witness resend_lost_on_second_loss (retransmissions not yet written are lost if the connection "
+              "drops again) and the positive part requeued_until_reset_partial. Six defects found and repaired."),
+        note=PROOF_NOTE + "PARTIAL: the property's 'never loses' holds up to the known finding C04:retransmission-lost (D52); sequence numbers are compared without wrap-around by the code (NoWrap is a hypothesis of the step theorems; 2^32 stanzas are out of reach of an honest session); the transport and the server are inputs."),
     "C08": dict(
         engine="tls", design="5.8",
         technique="Lean 4 theorems over the decision logic of tls_openssl.c/conn.c above OpenSSL, with OpenSSL's path validation and name matching as a parameter under the named hypothesis H-openssl (checked on every recorded handshake); the real tls_openssl.c against an in-process OpenSSL server with certificates generated per case; ground-truth Python oracle with its own RFC 6125 matcher",
